@@ -28,6 +28,9 @@ KINDS = ["Boom", "BoomFrozen", "BoomBase", "KeyboardInterrupt", "SystemExit", "G
          "ValueError", "IndexError"]
 
 
+EXHAUSTION_KINDS = ["MemoryError", "RecursionError", "TimeoutError", "ConnectionError", "BrokenPipeError", "BufferError", "OverflowError"]
+
+
 def run(ctx):
     res = common.Result()
     rng = ctx["rng"]
@@ -192,12 +195,16 @@ def run(ctx):
     # directed: every exception class once in a fixed small pipeline where the failing function is kept (nested keep, and keep at
     # the root): the exception that comes out is the very object that was raised, and nothing is stored or committed
     real = pipeline.real_runner()
-    for ki, kind in enumerate(KINDS + ["FileNotFoundError:errno", "PermissionError:errno", "OSError:errno"]):
+    directed = [(k_, ["memory", "local"][i_ % 2]) for i_, k_ in enumerate(KINDS + ["FileNotFoundError:errno", "PermissionError:errno", "OSError:errno"])]
+    # ... and once more on the store with the object cache, warm: the results of the functions that succeed were stored by an earlier
+    # evaluation and fetched since (resource exhaustion - MemoryError, RecursionError - is where a cache is tempted to 'help')
+    directed += [(k_, "local_lru:warm") for k_ in KINDS + EXHAUSTION_KINDS]
+    for ki, (kind, dstore) in enumerate(directed):
         base = tempfile.mkdtemp(prefix="ddsverif_c10k_")
         pkg = "c10k_%d_%d" % (os.getpid(), ki)
         try:
             real.reset_process_state()
-            real.set_store(["memory", "local"][ki % 2], os.path.join(base, "si"), os.path.join(base, "sd"))
+            real.set_store(dstore.split(":")[0], os.path.join(base, "si"), os.path.join(base, "sd"))
             if ki % 3 == 2:
                 # the kept callable is a class whose constructor fails
                 src = ("import dds\nfrom ddsverif_rt import log, term, boom\n\n"
@@ -214,8 +221,15 @@ def run(ctx):
             with open(os.path.join(base, pkg, "main.py"), "w") as fh:
                 fh.write(src)
             real.load_world(base, pkg + ".main", None, accept=pkg)
+            if dstore.endswith(":warm"):
+                for _ in (1, 2):
+                    real.run({"kind": "keep", "fun": "ok", "path": "/k/ok"})
             for entry in ({"kind": "eval", "fun": "f0"}, {"kind": "keep", "fun": "bad", "path": "/k/top"}):
                 r = real.run(entry)
+                if [x for x in r["log"] if x == "bad"] != ["bad"]:
+                    res.violations.append({"what": "a kept function that raises %s was executed %d times in one evaluation" % (kind, len([x for x in r["log"] if x == "bad"])),
+                                           "input": {"source": src, "entry": entry, "store": dstore}, "kf": None})
+                    break
                 res.evaluations += 1
                 res.count("directed_kinds")
                 res.nontrivial("directed kind %s %s" % (kind, entry["kind"]))
@@ -224,7 +238,7 @@ def run(ctx):
                 if e is None or e.get("kind") != "exc" or e.get("cls") != want_cls or not e.get("same_object") or (
                         ":" not in kind and e.get("token") != "tok%d" % ki):
                     res.violations.append({"what": "a kept function raises %s('tok%d'); what comes out of dds is %s (the same exception object is expected)" % (kind, ki, e),
-                                           "input": {"source": src, "entry": entry}, "kf": None})
+                                           "input": {"source": src, "entry": entry, "store": dstore}, "kf": None})
                     break
                 if r["synced"]:
                     res.violations.append({"what": "a failed evaluation committed paths: %s" % (r["synced"],), "input": {"source": src, "entry": entry}, "kf": None})
@@ -234,6 +248,74 @@ def run(ctx):
             for k in list(sys.modules):
                 if k.split(".")[0] == pkg:
                     del sys.modules[k]
+    # the same through the public API only (no recording wrapper around the store: the library sees the store types it builds itself),
+    # on the store with the object cache, warm: the exception that comes out is the object that was raised, the function ran once,
+    # and no file appears in the store directories
+    import dds
+    import dds._api as api
+    import importlib
+    import ddsverif_rt
+    saved_store = api._store_var
+    for ki, kind in enumerate(EXHAUSTION_KINDS + ["Boom", "KeyError", "KeyboardInterrupt"]):
+        base = tempfile.mkdtemp(prefix="ddsverif_c10p_")
+        pkg = "c10p_%d_%d" % (os.getpid(), ki)
+        try:
+            real.reset_process_state()
+            dds.set_store("local", internal_dir=os.path.join(base, "si"), data_dir=os.path.join(base, "sd"), cache_objects=[True, 2, 100][ki % 3])
+            src = ("import dds\nfrom ddsverif_rt import log, term, boom\n\n"
+                   "def ok():\n    log('ok')\n    return term('ok')\n\n"
+                   "def ok2():\n    log('ok2')\n    return term('ok2')\n\n"
+                   "def bad():\n    log('bad')\n    boom(%r, 'tok%d')\n\n"
+                   "def warm():\n    return term('warm', dds.keep('/k/ok', ok), dds.keep('/k/ok2', ok2))\n\n"
+                   "def f0():\n    a = dds.keep('/k/ok', ok)\n    a2 = dds.keep('/k/ok2', ok2)\n    b = dds.keep('/k/bad', bad)\n    return term('f0', a, a2, b)\n" % (kind, ki))
+            os.makedirs(os.path.join(base, pkg), exist_ok=True)
+            open(os.path.join(base, pkg, "__init__.py"), "w").close()
+            with open(os.path.join(base, pkg, "main.py"), "w") as fh:
+                fh.write(src)
+            sys.path.insert(0, base)
+            importlib.invalidate_caches()
+            dds.accept_module(pkg)
+            mod = importlib.import_module(pkg + ".main")
+            for _ in (1, 2):
+                dds.eval(mod.warm)
+
+            def snapshot():
+                out = []
+                for root_, _, files_ in os.walk(base):
+                    if os.path.basename(root_) != pkg and "__pycache__" not in root_:
+                        out += [os.path.join(root_, f_) for f_ in files_]
+                return sorted(out)
+            before = snapshot()
+            del ddsverif_rt.LOG[:]
+            del ddsverif_rt.RAISED[:]
+            try:
+                v = dds.eval(mod.f0)
+                out = ("returned", repr(v))
+            except BaseException as e:
+                out = ("raised", type(e).__name__, bool(ddsverif_rt.RAISED) and e is ddsverif_rt.RAISED[0])
+            ran = [x for x in ddsverif_rt.LOG if x == "bad"]
+            res.evaluations += 1
+            res.count("public_api_warm_cache_kinds")
+            res.nontrivial("public api warm cache %s" % kind)
+            bad = None
+            if out != ("raised", kind, True):
+                bad = "what comes out of dds.eval is %s (expected: the very %s object that the function raised)" % (out, kind)
+            elif ran != ["bad"] or len(ddsverif_rt.RAISED) != 1:
+                bad = "the failing function was executed %d times" % len(ran)
+            elif snapshot() != before:
+                bad = "files appeared in / disappeared from the store: %s" % sorted(set(snapshot()) ^ set(before))
+            if bad:
+                res.violations.append({"what": "a kept function raises %s on a local store with the object cache (warm): %s" % (kind, bad),
+                                       "input": {"source": src, "cache_objects": [True, 2, 100][ki % 3]}, "kf": None})
+        finally:
+            api._eval_ctx = None
+            if base in sys.path:
+                sys.path.remove(base)
+            shutil.rmtree(base, ignore_errors=True)
+            for k in list(sys.modules):
+                if k.split(".")[0] == pkg:
+                    del sys.modules[k]
+    api._store_var = saved_store
     pipeline.close_ref()
     res.rule = ("%d generated pipelines x failing function (quick: 3 per pipeline; thorough: every function) x exception classes %s x entry "
                 "{eval, keep} x stores {memory, local, local+cache}; each followed by the repaired pipeline; one case = (pipeline, failing "
